@@ -32,6 +32,7 @@ TECHNIQUE += '; interprocedural must-pass summaries of API pre-flight helpers'
 EXPLANATION += ' R1/R3 accept the required-attribute check and the prepare_dump dispatch inside an API helper only if every normal exit of the helper passes through them.'
 TECHNIQUE += '; evaluation of the segmentation pre-flight on abstract shells'
 EXPLANATION += ' R5 also includes the agreement of prepare_segmented with convert_to_segmented on 20 abstract shell / keep_sp combinations (shared with C14-R2).'
+EXPLANATION += ' R5 is the same semantic guard matrix (126 evaluations), replacing the textual classification of guard statements.'
 TRUSTED = [
     "CPython ast parser", "open(name, 'w') is the only truncation point (POSIX)",
     "with-statement closes the file on every exit", "whitelisted total externals do not raise",
